@@ -1036,7 +1036,7 @@ def _cdf_true(x):
     return 0.5 * math.erfc(-x / math.sqrt(2))
 
 
-REAL = {'exp': math.exp, 'sqrt': math.sqrt, 'cdf': _cdf_true, 'pdf': _N.pdf}
+REAL = {'exp': math.exp, 'sqrt': math.sqrt, 'cdf': _cdf_true, 'pdf': _N.pdf, 'log': math.log}
 NEG_RULE = {'exp': lambda r: 1 / r, 'cdf': lambda r: 1 - r, 'pdf': lambda r: r}
 NEG_SH = {'exp': lambda v: 1 / v, 'cdf': lambda v: 1 - v, 'pdf': lambda v: v}
 
@@ -1310,6 +1310,35 @@ class SymMath:
         return math.erf(z)
 
     # plausible stdlib helpers a change to the library might reach for; exact real-number semantics
+    # numerically motivated variants of the same mathematical functions
+    def expm1(self, x):
+        return self.exp(x) - 1 if isinstance(x, Sym) else math.expm1(x)
+
+    def hypot(self, *xs):
+        if any(isinstance(x, Sym) for x in xs):
+            t = 0
+            for x in xs:
+                t = t + x * x
+            return self.sqrt(t)
+        return math.hypot(*xs)
+
+    def fsum(self, xs):
+        xs = list(xs)
+        if any(isinstance(x, Sym) for x in xs):
+            t = 0
+            for x in xs:
+                t = t + x
+            return t
+        return math.fsum(xs)
+
+    def log(self, x, *base):
+        if isinstance(x, Sym) and not base:
+            return sym_log(x)
+        return math.log(x, *base)
+
+    def log1p(self, x):
+        return sym_log(1 + x) if isinstance(x, Sym) else math.log1p(x)
+
     # a symbolic number stands for a finite real
     def isfinite(self, x):
         return True if isinstance(x, Sym) else math.isfinite(x)
@@ -1361,6 +1390,26 @@ class SymMath:
                 raise OverflowError('math range error')
             return uf_app('exp', x, ax_exp)
         return math.exp(x)
+
+
+def ax_log(a, r, lst):
+    A = ENG.add_axiom
+    A(z3.Implies(a == 1, r == 0))
+    A(z3.Implies(a > 1, r > 0))
+    A(z3.Implies(a < 1, r < 0))
+    for (a2, r2) in lst:
+        A(z3.Implies(a < a2, r < r2))
+        A(z3.Implies(a > a2, r > r2))
+        A(z3.Implies(a == a2, r == r2))
+    # inverse of exp: log(exp(u)) = u for the exp applications of this path
+    for app in ENG.apps.get('exp', []):
+        A(z3.Implies(a == app[1], r == app[0]))
+
+
+def sym_log(x):
+    if ENG.guard(x.t <= 0, [(v <= 0, v == v) for v in x.s], 'ValueError(log)'):
+        raise ValueError('math domain error')
+    return uf_app('log', x, ax_log)
 
 
 def _all_int_kind(a):
